@@ -1321,7 +1321,10 @@ func (client *client) disconnectHandler(dis *packets.Disconnect) *codes.Error {
 	}
 	client.disconnect = dis
 	// 不发送will message
-	client.cleanWillFlag = true
+	// (unless the client asks for it with reason code 0x04, Disconnect with Will Message)
+	if dis.Code != codes.DisconnectWithWillMessage {
+		client.cleanWillFlag = true
+	}
 	return nil
 }
 
